@@ -6,6 +6,7 @@ import (
 	"fmt"
 	"io"
 	"math/rand"
+	"regexp"
 	"sort"
 	"strings"
 	"time"
@@ -90,6 +91,28 @@ func renderWith(format string, d *sbom.Document, indent int) ([]byte, error) {
 	return gen.RenderWith(format, d, indent)
 }
 
+var enumKeyRe = regexp.MustCompile(`"(relationshipType|primaryPackagePurpose|algorithm|alg|referenceCategory|referenceType|type|scope)":\s*"([A-Za-z_0-9-]+)"`)
+
+// varyEnumCase rewrites the values of enumeration-like members in other letter cases.
+func varyEnumCase(r *rand.Rand, b []byte) []byte {
+	return enumKeyRe.ReplaceAllFunc(b, func(m []byte) []byte {
+		sub := enumKeyRe.FindSubmatch(m)
+		if r.Intn(2) == 0 {
+			return m
+		}
+		v := string(sub[2])
+		switch r.Intn(3) {
+		case 0:
+			v = strings.ToLower(v)
+		case 1:
+			v = strings.ToUpper(v)
+		default:
+			v = strings.ToUpper(v[:1]) + strings.ToLower(v[1:])
+		}
+		return []byte(fmt.Sprintf("%q: %q", sub[1], v))
+	})
+}
+
 const crossLineTV = "# generated tag-value fragment\nDataLicense: CC0-1.0\nSPDXVersion:\n  \"SPDX-2.3\"\nSPDXID: SPDXRef-DOCUMENT\n"
 
 func genC17(verifSeed int64, tier string, idx int) *core.Scenario {
@@ -121,6 +144,9 @@ func genC17(verifSeed int64, tier string, idx int) *core.Scenario {
 			b, err = gen.RenderSafe(f, d, r.Intn(5))
 			if err != nil {
 				b = repoFile("bom-1.4.json") // the serializer refused a workload document: fixed input instead
+			}
+			if r.Intn(3) == 0 {
+				b = varyEnumCase(r, b) // producers spell enumerated values in other cases
 			}
 		}
 		sp.Streams = append(sp.Streams, b64(b))
